@@ -44,7 +44,11 @@ class Malformed(Harness):
         for fmt, recsets in seqsets.items():
             for recs in recsets:
                 for bad in range(len(recs)):
-                    for what in (("marker", "plus", "plus_empty", "marker_empty") if fmt == "fastq" else ("marker", "marker_empty")):
+                    kinds = ("marker", "plus", "plus_empty", "marker_empty") if fmt == "fastq" else ("marker", "marker_empty")
+                    if fmt == "fastq":
+                        kinds += ("plus_deleted",)       # the whole separator line is missing: every later record is shifted by one line,
+                                                         # and the last entry of the file is a line short
+                    for what in kinds:
                         for lazy, mode, chunked in ((True, "seek", True), (False, "seek", True), (True, "prepend", True), (True, "seek", False)):
                             out.append(dict(fmt=fmt, records=recs, bad=[bad, what], lazy=lazy, mode=mode, chunked=chunked))
         for fmt, rowsets in bedsets.items():
@@ -110,7 +114,9 @@ class Malformed(Harness):
                         pos = off + 1 + rec[0] + 1 + rec[1] + 1      # '@' name NL seq NL -> '+'
                     break
                 off += size
-            if what == "plus_empty":
+            if what == "plus_deleted":
+                del base[pos:pos + 2]                          # '+' and its line break: the line is gone
+            elif what == "plus_empty":
                 del base[pos]                                  # the separator line is empty
             elif what == "marker_empty":
                 del base[pos:pos + 1 + self_name_len(skel, r)]  # the header line is empty
@@ -125,6 +131,10 @@ class Malformed(Harness):
             b = V.int("bad", 33, 126)
             marker = ord("+") if skel["bad"][1].startswith("plus") else ord("@" if skel["fmt"] == "fastq" else ">")
             V.assume(b.t != marker)
+            if skel["bad"][1] == "plus_deleted":
+                # with a quality line that itself begins with '+' the file is a different one: a complete record whose quality is the next
+                # header line, followed by junk; the deleted line is only identifiable when the quality does not pass for a separator
+                V.assume(V.vars[f"qq{skel['bad'][0]}_0"].t != ord("+"))
         elif skel["bad"][1] == "ncols":
             F.declare_cells(V, skel)
         else:
@@ -185,6 +195,8 @@ class Malformed(Harness):
     def _bad_line(self, skel):
         if skel["fmt"] in F.SEQ_FORMATS:
             per = 4 if skel["fmt"] == "fastq" else 2
+            if skel["bad"][1] == "plus_deleted" and skel["bad"][0] == len(skel["records"]) - 1:
+                return skel["bad"][0] * per               # the truncated last entry is reported where it starts
             return skel["bad"][0] * per + (2 if skel["bad"][1].startswith("plus") else 0)
         return skel["bad"][0]
 
